@@ -5,6 +5,7 @@ package sql
 import (
 	"bufio"
 	"bytes"
+	"encoding/hex"
 	"encoding/json"
 	"fmt"
 	"os"
@@ -372,6 +373,15 @@ func TestVerifC35Parse(t *testing.T) {
 		t.Fatalf("unicode tables yield no length-changing runes: %d/%d", len(rs.Longer), len(rs.Shorter))
 	}
 	jobs := c35Jobs(r, rs)
+	replaying := false
+	if rp := verifkit.Replay(); rp != nil && rp["leg"] == "parse" {
+		// bin/check --replay <witness>: only the witness is evaluated (floors do not apply)
+		if w, ok := rp["replay"].(map[string]any); ok {
+			if j, ok := c35ReplayJob(w); ok {
+				jobs, replaying = []c35Job{j}, true
+			}
+		}
+	}
 	scratch := os.Getenv("VERIF_SCRATCH")
 	if scratch == "" {
 		scratch = t.TempDir()
@@ -535,6 +545,9 @@ func TestVerifC35Parse(t *testing.T) {
 	}
 	r.Note("max_totalalloc_per_job_bytes", maxAlloc)
 	r.Note("jobs", len(jobs))
+	if replaying {
+		return
+	}
 	r.Floor("valid_statements_with_case_variants_meta_ascii", int64(len(jobs)/8))
 	r.Floor("valid_statements_with_case_variants_meta_unicode", int64(len(jobs)/40))
 	r.Floor("hostile_with_longer_lowercase", int64(len(jobs)/16))
@@ -542,6 +555,35 @@ func TestVerifC35Parse(t *testing.T) {
 	r.Floor("valid_statement_shapes", 40)
 	r.Floor("rune_sites", 20)
 	r.Floor("noise_kinds", 8)
+}
+
+func c35ReplayJob(w map[string]any) (c35Job, bool) {
+	unhex := func(v any) ([]byte, bool) {
+		h, ok := v.(string)
+		if !ok {
+			return nil, false
+		}
+		b, err := hex.DecodeString(h)
+		return b, err == nil
+	}
+	if b, ok := unhex(w["query_hex"]); ok {
+		return c35Job{Kind: "hostile", Sig: "replay", Texts: [][]byte{b}, Sites: []string{"replay"}, Longer: 1}, true
+	}
+	if a, ok := w["query_a"].(string); ok {
+		if b, ok := w["query_b"].(string); ok {
+			return c35Job{Kind: "meta_unicode", Sig: "replay", Texts: [][]byte{[]byte(a), []byte(b)}}, true
+		}
+	}
+	if l, ok := w["texts_hex"].([]any); ok && len(l) > 0 {
+		j := c35Job{Kind: "hostile", Sig: "replay", Sites: []string{"replay"}, Longer: 1}
+		for _, v := range l {
+			if b, ok := unhex(v); ok {
+				j.Texts = append(j.Texts, b)
+			}
+		}
+		return j, len(j.Texts) > 0
+	}
+	return c35Job{}, false
 }
 
 func c35Tail(s string) string {
